@@ -695,6 +695,36 @@ func (ch c10) runCase(c *core.Ctx, envPlain, envAuth *hs.Env, k c10case, idx int
 	if over {
 		c.Count("probe_after_oversize_ok", 1)
 	}
+	if over && !inCopy && idx%6 == 2 && k.Eff >= 64 && k.Eff < 1<<22 {
+		// what is bound after an oversized message stays what it is when another oversized message (here, or
+		// on a neighbour connection) is skipped before it is executed
+		marker := fmt.Sprintf("kept across a skipped message %d", idx)
+		if _, ok := expect("Parse + Bind after the oversized message", append(append(pg.Parse("keep", "probe-after", nil), pg.Bind("kp", "keep", nil, [][]byte{[]byte(marker)}, nil)...), pg.Sync()...), "12Z"); !ok {
+			return
+		}
+		big := pg.Raw('Q', append(bytes.Repeat([]byte{'x'}, k.Eff+1), 0))
+		nb := hs.NewClient(envPlain.Dial(sess))
+		if nb.StartupOK("neighbour") == nil {
+			nb.Step(big)
+			nb.Finish()
+		}
+		if _, ok := expect("oversized message", big, "EZ"); !ok {
+			return
+		}
+		evs := len(cl.C.Events())
+		if _, ok := expect("Execute of the portal bound before the second oversized message", append(pg.Execute("kp", 0), pg.Sync()...), "DCZ"); !ok {
+			return
+		}
+		for _, e := range cl.C.Events()[evs:] {
+			if e.Kind == "cb" && e.Name == "exec" {
+				if r := e.Data.(hs.ExecRec); len(r.Params) != 1 || string(r.Params[0]) != marker {
+					viol("next-message", "a portal bound after an oversized message runs with other parameter bytes once another oversized message was skipped", fmt.Sprintf("statement saw %q, bound %q", r.Params, marker))
+					return
+				}
+				c.Count("portals_kept_across_a_second_oversized_message", 1)
+			}
+		}
+	}
 	if inCopy && k.Eff < 1<<22 {
 		// whatever ended the COPY (the client, or the server on an oversized / foreign message): the
 		// configured limit is the limit of the session afterwards as before
